@@ -1035,7 +1035,8 @@ pub fn recvlimits(trace: &[Value]) -> Vec<Value> {
         let mut per: Vec<Value> = Vec::new();
         let mut worst_stream = 0i64;
         for r in st["recv"].as_array().cloned().unwrap_or_default() {
-            let held = if r["stopped"] == true { 0 } else { cap(&r["end"]) - cap(&r["br"]) };
+            // a stopped stream and a stream the peer has reset hold nothing: what was not read is discarded
+            let held = if r["stopped"] == true || r["st"] == 2 { 0 } else { cap(&r["end"]) - cap(&r["br"]) };
             unread += held;
             worst_stream = worst_stream.max(held);
             per.push(json!([r["id"], cap(&r["br"])]));
